@@ -669,8 +669,21 @@ impl Trace {
 
     /// C18: thread `tid` observed the child of the current state under action a with digest dg
     pub fn tdig(&mut self, tid: usize, a: &Action, dg: &str, pop: usize) {
+        self.tdig_kind(tid, a, dg, pop, false)
+    }
+
+    /// light = the digest covers the move-generation answers only
+    pub fn tdig_kind(&mut self, tid: usize, a: &Action, dg: &str, pop: usize, light: bool) {
         let (x, y) = action_pair(a);
-        self.emit(format!("{{\"ev\":\"tdig\",\"tid\":{},\"a\":[{},{}],\"pop\":{},\"dg\":\"{}\"}}", tid, x, y, pop, dg));
+        self.emit(format!(
+            "{{\"ev\":\"tdig\",\"tid\":{},\"a\":[{},{}],\"pop\":{},\"light\":{},\"dg\":\"{}\"}}",
+            tid,
+            x,
+            y,
+            pop,
+            if light { 1 } else { 0 },
+            dg
+        ));
     }
 
     /// C18: thread `tid` observed, concurrently with other threads observing OTHER states, the state
@@ -688,7 +701,7 @@ impl Trace {
 
     /// C18: thread `tid` observed the shared state itself
     pub fn tdig_self(&mut self, tid: usize, dg: &str, pop: usize) {
-        self.emit(format!("{{\"ev\":\"tdig\",\"tid\":{},\"a\":[-2,0],\"pop\":{},\"dg\":\"{}\"}}", tid, pop, dg));
+        self.emit(format!("{{\"ev\":\"tdig\",\"tid\":{},\"a\":[-2,0],\"pop\":{},\"light\":0,\"dg\":\"{}\"}}", tid, pop, dg));
     }
 
     /// C18: the current state observed again (after the threads have joined)
